@@ -74,8 +74,9 @@ pub fn duplicate_cte_class(text: &str) -> &'static str {
 
 struct Rendered { text: Result<String, (String, String)>, accepted: Result<(), String>, readback: Option<Result<Result<Relation, String>, (String, String)>> }
 
-fn per_dialect(rel: &Relation, d: &str) -> Rendered {
-    let rels = world2();
+fn per_dialect(rel: &Relation, d: &str) -> Rendered { per_dialect_in(rel, d, &world2()) }
+
+fn per_dialect_in(rel: &Relation, d: &str, rels: &qrlew::hierarchy::Hierarchy<std::sync::Arc<Relation>>) -> Rendered {
     macro_rules! go {
         ($tr:expr, $dial:expr, $read:expr) => {{
             let text = guarded(|| ast::Query::from(RelationWithTranslator(rel, $tr)).to_string());
@@ -83,7 +84,7 @@ fn per_dialect(rel: &Relation, d: &str) -> Rendered {
                 Err(e) => Rendered { text: Err(e), accepted: Ok(()), readback: None },
                 Ok(t) => {
                     let accepted = sqlparser::parser::Parser::parse_sql(&$dial, &t).map(|_| ()).map_err(|e| e.to_string());
-                    let readback = if $read { Some(guarded(|| { let q = parse_with_dialect(&t, $dial).map_err(|e| e.to_string())?; Relation::try_from((QueryWithRelations::new(&q, &rels), $tr)).map_err(|e| e.to_string()) })) } else { None };
+                    let readback = if $read { Some(guarded(|| { let q = parse_with_dialect(&t, $dial).map_err(|e| e.to_string())?; Relation::try_from((QueryWithRelations::new(&q, rels), $tr)).map_err(|e| e.to_string()) })) } else { None };
                     Rendered { text: Ok(t), accepted, readback }
                 }
             }
@@ -172,4 +173,40 @@ pub fn dump_dialects() -> J {
         {"name": "databricks", "write": q(DatabricksTranslator.identifier(&id)), "reads": true, "delims": delims(&QueryToRelationTranslator::dialect(&DatabricksTranslator)), "backslash": QueryToRelationTranslator::dialect(&DatabricksTranslator).supports_string_literal_backslash_escape()},
         {"name": "redshift", "write": q(RedshiftSqlTranslator.identifier(&id)), "reads": true, "delims": delims(&QueryToRelationTranslator::dialect(&RedshiftSqlTranslator)), "backslash": QueryToRelationTranslator::dialect(&RedshiftSqlTranslator).supports_string_literal_backslash_escape()},
     ]})
+}
+
+// ------------------------------------------------------------------------------------------------
+// stream `dialectdp`: relations produced by the DP rewriting (noise, clipping, thresholds, MD5 of the privacy unit, public-value
+// VALUES lists) rendered by the eight translators: accepted by the dialect's parser; read back with the same names, order and types
+
+pub fn gen_dp(rng: &mut Rng, k: usize, tier: &str) -> J { crate::s_exec::gen_c09(rng, k, tier) }
+
+pub fn eval_dp(case: &J) -> Outcome {
+    use qrlew::differential_privacy::DpParameters;
+    let mut out = Outcome::new();
+    let sql = case["sql"].as_str().unwrap().to_string();
+    let rels = crate::s_rules::world();
+    let rel = match guarded(|| { let q = parse(&sql).map_err(|e| e.to_string())?; Relation::try_from(QueryWithRelations::new(&q, &rels)).map_err(|e| e.to_string()) }) { Ok(Ok(r)) => r, _ => { out.tag("trivial"); return out; } };
+    let dp = match guarded(|| rel.rewrite_with_differential_privacy(&rels, None, crate::s_rules::privacy_unit(), DpParameters::from_epsilon_delta(1.0, 1e-4))) {
+        Ok(Ok(d)) => d, Ok(Err(_)) => { out.tag("trivial"); out.tag("dp-err"); return out; }
+        Err((loc, msg)) => { out.tag("trivial"); out.fail(&format!("C18/dialectdp/rewrite-panic/{}", site(&loc, &msg)), format!("{sql}: {msg}")); return out; } };
+    let rel = dp.relation().clone();
+    let sig = schema_sig(&rel);
+    for d in DIALECTS {
+        let r = per_dialect_in(&rel, d, &rels);
+        let text = match r.text { Ok(t) => t, Err((loc, msg)) => { out.fail(&format!("C18/dialectdp/{d}/render-panic/{}", site(&loc, &msg)), format!("{sql}: {msg}")); continue; } };
+        if let Err(e) = r.accepted { out.fail(&format!("C17/dialectdp/{d}/not-accepted/{}", feature(&text)), format!("DP rewriting of {sql} rendered for {d} is rejected by the {d} parser: {e} ({})", &text[..text.len().min(400)])); continue; }
+        match r.readback {
+            None => {}
+            Some(Err((loc, msg))) => out.fail(&format!("C18/dialectdp/{d}/readback-panic/{}/{}", site(&loc, &msg), feature(&text)), format!("DP rewriting of {sql} for {d}: {msg}")),
+            Some(Ok(Err(e))) => out.fail(&format!("C17/dialectdp/{d}/readback-error/{}", feature(&text)), format!("DP rewriting of {sql} rendered for {d} cannot be read back: {e}")),
+            Some(Ok(Ok(r2))) => {
+                let sig2 = schema_sig(&r2);
+                if sig.iter().map(|x| &x.0).collect::<Vec<_>>() != sig2.iter().map(|x| &x.0).collect::<Vec<_>>() { out.fail(&format!("C17/dialectdp/{d}/readback-names"), format!("DP rewriting of {sql}: columns {:?} come back from {d} as {:?}", sig.iter().map(|x| &x.0).collect::<Vec<_>>(), sig2.iter().map(|x| &x.0).collect::<Vec<_>>())); }
+                else if sig != sig2 { let dd = sig.iter().zip(sig2.iter()).find(|(a, b)| a != b).unwrap(); out.fail(&format!("C17/dialectdp/{d}/readback-types/{}", if crate::s_determ::same_modulo_type_structure(&rel, &r2) { "type-structure" } else { "other" }), format!("DP rewriting of {sql}: column `{}` has type {} but {} after {d} render + read", dd.0 .0, dd.0 .1, dd.1 .1)); }
+                else { out.tag(&format!("ok={d}")); }
+            }
+        }
+    }
+    out
 }
